@@ -49,7 +49,7 @@ def r2_sets(ctx):
                     ctx.ob("R2", "%s:row" % fn, False, "a path of %s does not decide the quote level and call _escape exactly once" % fn, config=cfg)
                     continue
                 clo = [a for a in cs[0][3] if a[0] == "closure"]
-                cb = F.body(clo[0][1].replace("quick_xml::", "", 1)) if clo else None
+                cb = F.closure(clo[0][1]) if clo else None
                 if cb is None:
                     ctx.ob("R2", "%s[%s]:closure" % (fn, level), False, "predicate closure not found", config=cfg)
                     continue
